@@ -150,7 +150,7 @@ Proof.
 Qed.
 
 Lemma dec_coeff_enc (k : Z) (a_size : nat) (v : Z) : 1 <= k <= Z.of_nat a_size * b -> in_range 64 v ->
-  dec_coeff b k (enc_i64 b k a_size v) = dec_vec 64 b k (enc_i64 b k a_size v).
+  dec_coeff_i64 b k (enc_i64 b k a_size v) = dec_vec 64 b k (enc_i64 b k a_size v).
 Proof.
   intros Hk Hv. rewrite (enc_i64_spec b Hb k a_size v Hk Hv).
   destruct (enc_params b k ltac:(lia) ltac:(lia)) as (Esz & Hr & Hs1).
@@ -161,7 +161,7 @@ Proof.
 Qed.
 
 Theorem rt_coeff (k : Z) (a_size : nat) (v : Z) : 1 <= k <= Z.of_nat a_size * b -> in_range 64 v ->
-  let r := dec_coeff b k (enc_i64 b k a_size v) in
+  let r := dec_coeff_i64 b k (enc_i64 b k a_size v) in
   in_range 64 r /\ (r - v) mod 2 ^ (Z.min k 64) = 0 /\
   (k <= 63 -> enc_lo b k <= r <= enc_hi b k /\ (r - v) mod 2 ^ k = 0) /\
   (enc_lo b k <= v <= enc_hi b k -> r = v).
@@ -189,7 +189,7 @@ Lemma enc_spec_shape (k : Z) (a_size : nat) (V : Z) : 1 <= k <= Z.of_nat a_size 
   let l := enc_spec b k a_size V in
   let size := enc_size b k in let krem := enc_krem b k in
   length l = a_size /\ Forall (in_range b) (firstn size l) /\ skipn size l = zeros (a_size - size) /\
-  nthZ l (size - 1) mod 2 ^ krem = 0 /\ lval b (firstn size l) = enc_rep b k V * 2 ^ krem.
+  nthZ l (size - 1) mod 2 ^ krem = 0 /\ e_lval b (firstn size l) = enc_rep b k V * 2 ^ krem.
 Proof.
   intros Hk. cbv zeta. destruct (enc_params b k ltac:(lia) ltac:(lia)) as (Esz & Hr & Hs1).
   pose proof (enc_size_le b k a_size ltac:(lia) Hk) as Hs2.
@@ -221,7 +221,7 @@ Qed.
    word width *)
 Lemma enc_spec_value_congr (k : Z) (a_size : nat) (V v : Z) (w : Z) : 1 <= k <= Z.of_nat a_size * b -> 1 <= w ->
   (V - v) mod 2 ^ w = 0 -> (k <= w \/ V = v) ->
-  (lval b (firstn (enc_size b k) (enc_spec b k a_size V)) - v * 2 ^ enc_krem b k)
+  (e_lval b (firstn (enc_size b k) (enc_spec b k a_size V)) - v * 2 ^ enc_krem b k)
     mod 2 ^ (Z.of_nat (enc_size b k) * b) = 0.
 Proof.
   intros Hk Hw HV Hor. destruct (enc_params b k ltac:(lia) ltac:(lia)) as (Esz & Hr & Hs1).
